@@ -171,6 +171,18 @@ def reader_cases(ctx, d):
     return cases
 
 
+def mark_judged(d, cases):
+    """the property speaks about a catalogue unit written with a value whose equivalent is a VALID value of the parameter
+    (an equivalent outside [Min, Max] must be rejected: that is C07, not a unit defect)"""
+    for c in cases:
+        r, p = c['row'], c['row']['param']
+        c['judged'] = c['u'] is not None and c['catalogue']
+        pp, nn = d['pint'].get(r['pref']), d['pint'].get(c['u'])
+        if c['judged'] and pp and nn and pp['dim'] == nn['dim']:
+            e = (nn['fac'] * c['x'] + nn['off'] - pp['off']) / pp['fac']
+            c['judged'] = (math.trunc(e) in p.AllowableRange) if r['kind'] == 'int' else (F(float(p.Min)) <= e <= F(float(p.Max)))
+
+
 def run_reader(cases):
     for c in cases:
         o = cu.real_read(c['row']['param'], c['text'])
@@ -231,14 +243,15 @@ def check_reader(ctx, d):
     py_verdict; the Coq model (correspondence) and the Coq oracle (must agree with py_verdict) are evaluated on
     representatives: thorough - every case, quick - two cases of every behaviour class (unit class x outcome x verdict)."""
     cases = corpus_cases(d) + reader_cases(ctx, d)
+    mark_judged(d, cases)
     run_reader(cases)
     groups = {}
     for c in cases:
-        judged = c['u'] is not None and c['catalogue']
+        judged = c['judged']
         c['pv'] = (py_verdict(d, c, c['obs'], False) if judged else None,
                    py_verdict(d, c, c['echo'], True) if judged and c['echo'] else None)
         o, e = c['obs'], c['echo']
-        g = (klass(c) if c['u'] is not None else c['row']['kind'], c['catalogue'], o['status'], o.get('code'),
+        g = (klass(c) if c['u'] is not None else c['row']['kind'], c['judged'], o['status'], o.get('code'),
              e and e['status'], e and e.get('code'), c['pv'], c.get('corpus'), c['text'] if c.get('corpus') else None)
         groups.setdefault(g, []).append(c)
     reps = [c for g in groups.values() for c in (g if not ctx.quick else g[:2])]
@@ -255,7 +268,7 @@ def check_reader(ctx, d):
                         observed=show_obs(c['obs'] if col == 0 else c['echo']), expected='value of the Coq model (see replay)')
     # 2. the Coq oracles on the representatives: they must say what py_verdict says
     for part, col, k in (('reader', 1, 0), ('echo', 3, 1)):
-        idx = [i for i, t in enumerate(terms) if t[col] is not None and reps[i]['catalogue']]
+        idx = [i for i, t in enumerate(terms) if t[col] is not None and reps[i]['judged']]
         verdicts = zverdicts(ctx, part + '-oracle', [terms[i][col] for i in idx])
         ctx.count(part + '-oracle', evaluations=len(idx), coq_verdicts={v: verdicts.count(v) for v in set(verdicts)})
         for i, v in zip(idx, verdicts):
@@ -265,7 +278,7 @@ def check_reader(ctx, d):
                             f'"{c["row"]["name"]}, {c["text"]}"', inp=inp_of(c, part), observed=show_obs(c['obs'] if k == 0 else c['echo']))
     # 3. the property on every case
     file_reader_verdicts(ctx, d, cases)
-    ctx.count('reader-impl', evaluations=len(cases), nontrivial_keys=[(c['row']['name'], c['u']) for c in cases if c['catalogue']],
+    ctx.count('reader-impl', evaluations=len(cases), nontrivial_keys=[(c['row']['name'], c['u']) for c in cases if c['judged']],
               behaviour_classes=len(groups))
     for c in cases[:2]:
         ctx.sample('reader', inp_of(c, 'reader'))
@@ -830,8 +843,9 @@ def py_verdict(d, c, o, echo):
 
 
 def py_reader_oracle(ctx, d, cases):
+    mark_judged(d, cases)
     for c in cases:
-        judged = c['u'] is not None and c['catalogue']
+        judged = c['judged']
         c['pv'] = (py_verdict(d, c, c['obs'], False) if judged else None, py_verdict(d, c, c['echo'], True) if judged and c['echo'] else None)
     file_reader_verdicts(ctx, d, cases)
 
@@ -840,6 +854,8 @@ def py_reader_oracle(ctx, d, cases):
 
 def correspondence(ctx, proofs_ok=True):
     d = gen.data()
+    if d['scan_error']:
+        raise RuntimeError('LookupUnits scan order not recognised: ' + d['scan_error'])
     check_tables(ctx, d)
     check_reader(ctx, d)
     check_outputs(ctx, d)
@@ -872,7 +888,7 @@ def replay(ctx, data):
         if not rows:
             print('parameter no longer exists'); return 1
         xt, _, u = inp['text'].partition(' ')
-        c = {'row': rows[0], 'u': u or None, 'xt': xt, 'x': F(xt), 'catalogue': True, 'text': inp['text']}
+        c = {'row': rows[0], 'u': u or None, 'xt': xt, 'x': F(xt), 'catalogue': True, 'judged': True, 'text': inp['text']}
         run_reader([c])
         print('implementation: after ReadParameter ->', show_obs(c['obs']), '| after Outputs._convert_units ->', show_obs(c['echo']))
         print('expected:', expected_of(d, c))
